@@ -52,6 +52,8 @@ func (c c18Call) String() string {
 		return fmt.Sprintf("fn%d", c.Fn)
 	case "out":
 		return fmt.Sprintf("OUT (%02X),A", c.Port)
+	case "setstdout":
+		return "host: SetStdout(other writer)"
 	}
 	return fmt.Sprintf("IN A,(%02X)", c.Port)
 }
@@ -74,6 +76,9 @@ func c18Run(calls []c18Call) []string {
 	var want []uint8
 	wantWarn := 0
 	ends := false
+	switchAt := map[int]bool{}
+	wantSplit := -1
+	var out2 bytes.Buffer
 	for _, cl := range calls {
 		switch cl.Kind {
 		case "fn2":
@@ -99,6 +104,12 @@ func c18Run(calls []c18Call) []string {
 		case "in":
 			put(0xDB, cl.Port)
 			wantWarn++
+		case "setstdout":
+			// host action between two calls: a NOP marks the place, the writer is replaced when the
+			// breakpoint after it is reached
+			put(0x00)
+			switchAt[len(bps)] = true
+			wantSplit = len(want)
 		}
 		bps = append(bps, pc)
 		if ends {
@@ -140,6 +151,9 @@ func c18Run(calls []c18Call) []string {
 				return []string{fmt.Sprintf("control did not return to the caller: stopped at %04X, expected the instruction after call #%d", cpu.PC, hit+1)}
 			}
 			hit++
+			if switchAt[hit-1] {
+				io.SetStdout(&out2)
+			}
 			if cpu.SP != sp0 {
 				d = append(d, fmt.Sprintf("after call #%d (%v): SP=%04X, want %04X", hit, calls[hit-1], cpu.SP, sp0))
 			}
@@ -167,7 +181,12 @@ func c18Run(calls []c18Call) []string {
 			d = append(d, fmt.Sprintf("JP 0 must end the run halted at FF03: PC=%04X HALT=%v", cpu.PC, cpu.HALT))
 		}
 	}
-	if !bytes.Equal(out.Bytes(), want) {
+	if wantSplit >= 0 {
+		// output before the host replaced the writer belongs to the first writer, everything after to the second
+		if !bytes.Equal(out.Bytes(), want[:wantSplit]) || !bytes.Equal(out2.Bytes(), want[wantSplit:]) {
+			d = append(d, fmt.Sprintf("SetStdout between two calls: first writer got % X (want % X), second writer got % X (want % X)", out.Bytes(), want[:wantSplit], out2.Bytes(), want[wantSplit:]))
+		}
+	} else if !bytes.Equal(out.Bytes(), want) {
 		g, w := out.Bytes(), want
 		if len(g) > 24 {
 			g = g[:24]
@@ -297,6 +316,15 @@ func checkC18(c *Ctx) {
 		}
 	}
 	seq(nil)
+	// the host replaces the console writer between two calls (and before the first one)
+	for _, a := range calls[:6] {
+		for _, b := range calls[:6] {
+			if !ok {
+				break
+			}
+			ok = run("setstdout", []c18Call{a, {Kind: "setstdout"}, b}) && run("setstdout", []c18Call{{Kind: "setstdout"}, a, b})
+		}
+	}
 	// the empty program: JP 0 only
 	run("exit", nil)
 	c.Evaluations = n
@@ -305,7 +333,7 @@ func checkC18(c *Ctx) {
 	c.Transitions = n
 	c.Traces = n
 	c.Exhaustive = true
-	c.Rule = fmt.Sprintf("real tinycpm machine + real CPU.Run, a breakpoint after every call: function 2 with all 256 E values; function 9 with every string over the alphabet {00,23,25,7F,80,FF,'A'} of length 0..3 (%d strings) at addresses {0200,7FFF,FD00} and ending right below the BDOS entry (terminator at FE05), every single non-'$' byte value, lengths {0,1,255,256,257,4095,4096} across page boundaries; all call sequences of length <=%d over a 15-letter alphabet {fn2(x), fn2('$'), fn2(0), 3 fn9 strings, unsupported fn 0/1/10/255, OUT (0)/(1)/(255), IN (0)/(7)}; exit via JP 0. Oracle: console writer receives exactly the specified bytes in order; after every call PC is the instruction after the CALL, SP and the caller's code bytes are unchanged; final halt at FF03; exactly one warning per port!=0 write and per port read; nothing else in memory changed. Non-trivial: every case with at least one call (counted).", len(strs), depth)
+	c.Rule = fmt.Sprintf("real tinycpm machine + real CPU.Run, a breakpoint after every call: function 2 with all 256 E values; function 9 with every string over the alphabet {00,23,25,7F,80,FF,'A'} of length 0..3 (%d strings) at addresses {0200,7FFF,FD00} and ending right below the BDOS entry (terminator at FE05), every single non-'$' byte value, lengths {0,1,255,256,257,4095,4096} across page boundaries; all call sequences of length <=%d over a 15-letter alphabet {fn2(x), fn2('$'), fn2(0), 3 fn9 strings, unsupported fn 0/1/10/255, OUT (0)/(1)/(255), IN (0)/(7)}; the host replacing the console writer (SetStdout) between two calls; exit via JP 0. Oracle: console writer receives exactly the specified bytes in order; after every call PC is the instruction after the CALL, SP and the caller's code bytes are unchanged; final halt at FF03; exactly one warning per port!=0 write and per port read; nothing else in memory changed. Non-trivial: every case with at least one call (counted).", len(strs), depth)
 	c.Bound = fmt.Sprintf("call sequences <=%d", depth)
 	c.Sample(c18Case{[]c18Call{{Kind: "fn9", Str: []uint8{0xFF, 0x00, 'z'}, Addr: 0x03FE}, {Kind: "out", Port: 1}, {Kind: "fn2", E: '$'}}})
 	c.Assume("strings lie outside page 0, the BIOS pages and the stack (statement: 'arbitrary addresses outside the BIOS pages')")
